@@ -23,6 +23,9 @@ type Network struct {
 	// hostile responders: addr -> function producing responses (Byzantine actors)
 	responders map[string]func(kind string, args interface{}) (interface{}, error)
 
+	// requester of the call in progress (wire mode: whose transport sends it)
+	curFrom *SimNode
+
 	// observers of traffic (C15 monitors)
 	onSyncResp func(from, to *SimNode, resp *net.SyncResponse)
 }
@@ -83,6 +86,11 @@ var errRefused = fmt.Errorf("connection refused (simulated)")
 // do on the real transport.
 func (nw *Network) deliver(target *SimNode, kind string, args interface{}, resp interface{}) (err error) {
 	c := nw.c
+	if c.cfg.Wire && target.wire != nil {
+		from := nw.curFrom
+		nw.curFrom = nil
+		return c.wireDeliver(from, target, kind, args, resp)
+	}
 	cmd := newCommand(kind)
 	if e := jsonCopy(args, cmd); e != nil {
 		return fmt.Errorf("encode request: %v", e)
@@ -177,7 +185,9 @@ func (nw *Network) call(from *SimNode, targetAddr, kind string, args interface{}
 		nw.deliver(target, kind, args, scratch)
 		return errTimeout
 	}
+	nw.curFrom = from
 	err := nw.deliver(target, kind, args, resp)
+	nw.curFrom = nil
 	if delay > 0 {
 		c.curTask = task
 		c.park(task, delay)
@@ -240,7 +250,11 @@ func (t *SimTransport) Listen()                  {}
 func (t *SimTransport) Consumer() <-chan net.RPC { return t.ch }
 func (t *SimTransport) LocalAddr() string        { return t.owner.addr }
 func (t *SimTransport) AdvertiseAddr() string    { return t.owner.addr }
-func (t *SimTransport) Close() error             { t.closed = true; return nil }
+func (t *SimTransport) Close() error {
+	t.closed = true
+	t.c.closeWire(t.owner)
+	return nil
+}
 
 func (t *SimTransport) Sync(target string, args *net.SyncRequest, resp *net.SyncResponse) error {
 	return t.c.net.call(t.owner, target, "sync", args, resp)
